@@ -21,8 +21,9 @@ PROP = dict(
          'the second level really starts, with node limits that give second-level limits of every kind: Live, Live^2/MaxNodes, none), '
          'DFPN (tables of 1..65536 entries, attacker unset / White / Black; one solver reused over sequences of positions; and the replayed '
          'two-call sequences of the repetition/table finding on 3x3 with 3 stones + capstone, judged by a depth-limited exhaustive search to '
-         'the known distance; thorough: one long DFPN run WITH repetitions - 15362 calls of mid - replayed by the model, the only model case '
-         'that exercises the repetition branch and the rule that bounds resting on a repetition cut are not stored). Every run is judged by the oracle; the runs whose cost is '
+         'the known distance; thorough: two long DFPN runs WITH repetitions - 3899 and 15362 calls of mid, 73 s and 8 min of model time, the cheapest that exist on 3x3 '
+         'with 2 stones + capstone - replayed by the model, the only model cases '
+         'that exercise the repetition branch and the rule that bounds resting on a repetition cut are not stored). Every run is judged by the oracle; the runs whose cost is '
          'within the model budget are also replayed by the extracted Coq model (PN-squared runs: Pn2.v, run with Config.Debug = 3 so that '
          'the number of second-level searches, the nodes they created and their limits are part of the comparison; plain PN runs: Pn.v). '
          'non-trivial = the solver made at least one search step; distinct = distinct (root, configuration) strings',
